@@ -226,6 +226,24 @@ Proof.
   apply modes_list_In in Hin. destruct Hin as [H1 H2]. exfalso. auto.
 Qed.
 
+(* a duplicate-free request naming every mode: the algorithms that un-fix the last mode are left with exactly that mode *)
+Lemma filter_none {A} (p : A -> bool) l : (forall x, In x l -> p x = false) -> filter p l = [].
+Proof. induction l as [|x l IH]; intros H; simpl; [reflexivity|]. rewrite (H x) by now left. apply IH. intros y Hy. apply H. now right. Qed.
+
+Theorem full_list_leaves_last a n fixed : drops_last a = true -> NoDup fixed -> 0 < n ->
+  (forall m, m < n -> In m fixed) -> modes_list a n fixed = [n - 1].
+Proof.
+  intros Hd Hnd Hn Hall. unfold modes_list.
+  assert (Hs : seq 0 n = seq 0 (n - 1) ++ [n - 1]).
+  { destruct n as [|k]; [lia|]. rewrite seq_S. cbn [Nat.add]. now replace (S k - 1) with k by lia. }
+  rewrite Hs, filter_app. cbn [filter].
+  assert (Hlast : memb (n - 1) (eff_fixed a n fixed) = false).
+  { destruct (memb (n - 1) (eff_fixed a n fixed)) eqn:E; auto. apply memb_In in E. unfold eff_fixed in E. rewrite Hd in E. cbn [andb] in E.
+    rewrite (proj2 (memb_In (n - 1) fixed)) in E by (apply Hall; lia). exfalso. now apply (remove_first_NoDup (n - 1) fixed Hnd). }
+  rewrite Hlast. cbn [negb]. rewrite filter_none; [reflexivity|].
+  intros x Hx. apply in_seq in Hx. apply negb_false_iff, memb_In. apply eff_fixed_keeps; [apply Hall; lia | intros _; lia].
+Qed.
+
 Lemma modes_list_NoDup a n fixed : NoDup (modes_list a n fixed).
 Proof. unfold modes_list. apply NoDup_filter, seq_NoDup. Qed.
 
